@@ -218,13 +218,16 @@ def run_e2e(sv, res):
     by_type = {}
     for t, s in strings:
         by_type.setdefault(t, []).append(s)
-    for t, ss in by_type.items():
-        soup = T.build_api((('e', 'form', (), tuple(('e', 'input', (('type', t), ('min', s), ('value', s)), ()) for s in ss)),))
+    jobs = [(t, t, ss) for t, ss in by_type.items()]
+    # the type keyword is ASCII case-insensitive in HTML: the same strings under other spellings of the type
+    jobs += [(t, sp, ss[::4]) for t, ss in by_type.items() for sp in (t.upper(), t.capitalize(), t[:-1] + t[-1].upper())]
+    for t, spelled, ss in jobs:
+        soup = T.build_api((('e', 'form', (), tuple(('e', 'input', (('type', spelled), ('min', s), ('value', s)), ()) for s in ss)),))
         els = T.elements(soup)[1:]
         try:
             ins = {id(e) for e in io.select(soup)}
         except Exception as e:
-            res.fail({'layer': 'e2e', 'type': t, 's': ''}, {'kind': 'raise', 'type': t, 'exc': type(e).__name__}, f':in-range raised {e!r}')
+            res.fail({'layer': 'e2e', 'type': t, 's': '', 'spelled': spelled}, {'kind': 'raise', 'type': t, 'exc': type(e).__name__}, f':in-range raised {e!r}')
             continue
         for s, el in zip(ss, els):
             want = C.parse(t, s) is not None
@@ -234,11 +237,13 @@ def run_e2e(sv, res):
                 res.nontrivial += 1
             if got != want:
                 sig = {'kind': 'validity', 'type': t, 'direction': 'accepted-invalid' if got else 'rejected-valid', 'shape': 'clean'}
+                if spelled != t:
+                    sig['type_spelled_in_other_case'] = True
                 if t == 'week':
                     sig['week'] = int(s.split('-W')[1])
                     sig['dec31_in_week1'] = C.dec31_in_week1(int(s.split('-W')[0]))
-                res.fail({'layer': 'e2e', 'type': t, 's': s}, sig,
-                         f'<input type={t} min={s!r} value={s!r}> is {"" if got else "not "}:in-range; the string is {"valid" if want else "invalid"}')
+                res.fail({'layer': 'e2e', 'type': t, 's': s, 'spelled': spelled}, sig,
+                         f'<input type={spelled} min={s!r} value={s!r}> is {"" if got else "not "}:in-range; the string is {"valid" if want else "invalid"}')
             else:
                 res.outcome('e2e-agree')
 
@@ -328,7 +333,7 @@ def replay(case):
             return None
         return {'kind': 'range', 'type': t, 'want': want, 'got': got}, f'{got} vs {want}'
     t, s = case['type'], case['s']
-    soup = T.build_api((('e', 'form', (), (('e', 'input', (('type', t), ('min', s), ('value', s)), ()),)),))
+    soup = T.build_api((('e', 'form', (), (('e', 'input', (('type', case.get('spelled', t)), ('min', s), ('value', s)), ()),)),))
     got = sv.match(':in-range', T.elements(soup)[1])
     want = C.parse(t, s) is not None
     return None if got == want else ({'kind': 'validity', 'type': t}, f'{got} vs {want}')
